@@ -13,80 +13,17 @@ open SpVerif
 
 /-! ### 1. per-segment: what `take_action` stores -/
 
-/-- the value argparse hands to a `store` action for converted items `vs` (`_get_values`) -/
-def segVal (n : NArgs) (vs : List Scalar) : Val :=
-  match vs, n with
-  | [], .opt => .sc .none
-  | [v], .one => .sc v
-  | [v], .opt => .sc v
-  | _, _ => .list vs
-
 /-- all tokens convert (and pass `choices`) — stated with the model's own converter so that it
     covers stateful `parse_tuple` closures too -/
 def ConvAll (fenv : FEnv) (act : Act) (i : Nat) (cs : List Nat) (toks : List Str)
     (vs : List Scalar) (cs' : List Nat) : Prop :=
   getValuesList fenv act i cs toks = .ok (vs, cs')
 
-theorem getValuesList_length (fenv : FEnv) (act : Act) (i : Nat) (cs cs' : List Nat)
-    (toks : List Str) (vs : List Scalar) (h : getValuesList fenv act i cs toks = .ok (vs, cs')) :
-    vs.length = toks.length := by
-  induction toks generalizing cs cs' vs with
-  | nil => simp only [getValuesList, Except.ok.injEq, Prod.mk.injEq] at h; simp [← h.1]
-  | cons t ts ih =>
-    simp only [getValuesList] at h
-    cases h1 : getValue fenv act i cs t with
-    | error e => rw [h1] at h; cases h
-    | ok p =>
-      obtain ⟨v, c1⟩ := p
-      rw [h1] at h
-      simp only at h
-      cases h2 : getValuesList fenv act i c1 ts with
-      | error e => rw [h2] at h; cases h
-      | ok q =>
-        obtain ⟨vs2, c2⟩ := q
-        rw [h2] at h
-        simp only [Except.ok.injEq, Prod.mk.injEq] at h
-        rw [← h.1]
-        simp [ih c1 c2 vs2 h2]
-
 theorem getValues_eq (fenv : FEnv) (act : Act) (i : Nat) (cs cs' : List Nat) (toks : List Str)
     (vs : List Scalar) (h : ConvAll fenv act i cs toks vs cs') :
     getValues fenv act i cs toks = .ok (segVal act.nargs vs, cs') := by
   unfold ConvAll at h
-  have hlen := getValuesList_length fenv act i cs cs' toks vs h
-  unfold getValues
-  match toks, act.nargs, vs, hlen, h with
-  | [], .opt, [], _, h =>
-    simp only [getValuesList, Except.ok.injEq, Prod.mk.injEq, true_and] at h
-    simp [segVal, h]
-  | [s], .one, [v], _, h =>
-    simp only [getValuesList] at h
-    cases h1 : getValue fenv act i cs s with
-    | error e => rw [h1] at h; cases h
-    | ok p =>
-      obtain ⟨v', c1⟩ := p
-      rw [h1] at h
-      simp only [Except.ok.injEq, Prod.mk.injEq, List.cons.injEq, and_true] at h
-      rw [← h.1, ← h.2]
-      simp only [Except.map, segVal, h1]
-  | [s], .opt, [v], _, h =>
-    simp only [getValuesList] at h
-    cases h1 : getValue fenv act i cs s with
-    | error e => rw [h1] at h; cases h
-    | ok p =>
-      obtain ⟨v', c1⟩ := p
-      rw [h1] at h
-      simp only [Except.ok.injEq, Prod.mk.injEq, List.cons.injEq, and_true] at h
-      rw [← h.1, ← h.2]
-      simp only [Except.map, segVal, h1]
-  | [], .one, [], _, h => simp [h, Except.map, segVal]
-  | [], .star, [], _, h => simp [h, Except.map, segVal]
-  | [], .plus, [], _, h => simp [h, Except.map, segVal]
-  | [], .num _, [], _, h => simp [h, Except.map, segVal]
-  | [s], .star, [v], _, h => simp [h, Except.map, segVal]
-  | [s], .plus, [v], _, h => simp [h, Except.map, segVal]
-  | [s], .num _, [v], _, h => simp [h, Except.map, segVal]
-  | s1 :: s2 :: ss, n, v1 :: v2 :: vv, _, h => cases n <;> simp [h, Except.map, segVal]
+  rw [getValues_ok_iff, h]
 
 /-- one store occurrence writes exactly `segVal` at the action's destination -/
 theorem takeAction_store (fenv : FEnv) (tbl : List Act) (st : St) (i : Nat) (o : Str)
